@@ -171,6 +171,9 @@ pub trait Prop: Sync {
     fn guards(&self) -> Vec<Guard> {
         vec![]
     }
+    fn max_shrink_iters(&self) -> u32 {
+        3000
+    }
     fn min_nontrivial(&self, tier: Tier) -> u64 {
         tier.pick(200, 2000)
     }
@@ -440,7 +443,7 @@ pub fn run_check<P: Prop>(prop: &P, tier: Tier, seed: u64) -> i32 {
                             cases,
                             rng_seed: RngSeed::Fixed(tseed),
                             failure_persistence: None,
-                            max_shrink_iters: 3000,
+                            max_shrink_iters: prop.max_shrink_iters(),
                             max_global_rejects: 100_000,
                             ..Config::default()
                         });
